@@ -14,7 +14,7 @@ The corollaries (symmetry, >= 0, 0 for a constant vector, <= min entropy, entrop
 """
 from __future__ import annotations
 
-from .kernel_rules import histogram, loop_cursors, summary_obligations
+from .kernel_rules import histogram, loop_cursors, sampling_guard, summary_obligations
 
 EXPLANATION = ('Probability-kind inference (R9): an abstract interpreter over the four kernel functions assigns each value a kind (N, counts, strata, sub-vectors, joint counts, probabilities, '
                'logs, signed reductions over index domains with the guards in force) and summarises the value returned on the plain path as a signed sum of p*log p contributions, which is compared '
@@ -27,5 +27,6 @@ ASSUMPTIONS = ['codes are non-negative integers (statement); floating-point roun
 
 def run(repo, chk, tier):
     histogram(repo, chk, 'C01.1')
-    summary_obligations(repo, chk, False, 'C01', {'badratio', 'badlog', 'badindex', 'badrange', 'badcount', 'badstore'})
+    summary_obligations(repo, chk, False, 'C01', {'badratio', 'badlog', 'badindex', 'badrange', 'badcount', 'badstore', 'badinit'})
     loop_cursors(repo, chk, 'C01.7')
+    sampling_guard(repo, chk, 'C01.8')
